@@ -175,6 +175,34 @@ theorem rect_lattice_count (x0 y0 W H sp tol : Rat) (hx : 0 ≤ x0) (hy : 0 ≤ 
       l.length = ((W / sp).floor.toNat + 1) * ((H / sp).floor.toNat + 1) :=
   RowWise.rect_lattice_count x0 y0 W H sp tol hx hy hs hW hH ht0 htW hdt
 
+/-- The boundary of the column count: a lot EXACTLY `k ≥ 1` spacings wide gets `k + 1` columns (in particular a
+    lot exactly one spacing wide gets two columns, not one: the single-borehole rule of `gen_borehole_config`
+    applies to chords strictly shorter than the spacing). -/
+theorem rect_lattice_exact_width (x0 y0 H sp tol : Rat) (k : Nat) (hk : 1 ≤ k) (hx : 0 ≤ x0) (hy : 0 ≤ y0) (hs : 0 < sp)
+    (hH : sp ≤ H) (ht0 : 0 ≤ tol) (htW : tol < (k : Rat) * sp)
+    (hdt : Gen.RowWise.distributeTol ≤ sp) :
+    genBoreholeConfig (rectPoly x0 y0 ((k : Rat) * sp) H) sp sp 1 0 tol
+      = .ok (lattice x0 y0 ((k : Rat) * sp) H k (H / sp).floor.toNat) := by
+  have hk1 : (1 : Rat) ≤ (k : Rat) := by exact_mod_cast hk
+  have hW : sp ≤ (k : Rat) * sp := by nlinarith
+  have hfl : ((k : Rat) * sp / sp).floor.toNat = k := by
+    rw [mul_div_assoc, div_self (ne_of_gt hs), mul_one]
+    have : ((k : Rat)).floor = (k : Int) := (Int.floor_natCast (R := ℚ) k)
+    rw [this]; simp
+  have := rect_lattice x0 y0 ((k : Rat) * sp) H sp tol hx hy hs hW hH ht0 htW hdt
+  rwa [hfl] at this
+
+/-- Boundary witnesses: lots exactly one spacing wide (10 × 55 at 10 m, 12.5 × 70 at 12.5 m, 7.5 × 40 at 7.5 m)
+    get 2 × 6 boreholes. -/
+example : genBoreholeConfig (rectPoly 10 10 10 55) 10 10 1 0 (1 / 100000) = .ok (lattice 10 10 10 55 1 5) := by decide +kernel
+example : (genBoreholeConfig (rectPoly 3 4 (25 / 2) 70) (25 / 2) (25 / 2) 1 0 (1 / 100000)).toOption.map List.length = some 12 := by
+  decide +kernel
+example : (genBoreholeConfig (rectPoly 5 5 (15 / 2) 40) (15 / 2) (15 / 2) 1 0 (1 / 100000)).toOption.map List.length = some 12 := by
+  decide +kernel
+/-- … while a lot one part in 10⁹ narrower than the spacing gets a single column. -/
+example : (genBoreholeConfig (rectPoly 0 0 (10 - 1 / 1000000000) 55) 10 10 1 0 (1 / 100000)).toOption.map List.length = some 6 := by
+  decide +kernel
+
 /-- Non-vacuity: the 60 × 30 lot with 7 m target spacing gets the 9 × 5 lattice. -/
 example : genBoreholeConfig (rectPoly 0 0 60 30) 7 7 1 0 (1 / 100000) = .ok (lattice 0 0 60 30 8 4) := by decide +kernel
 
